@@ -181,6 +181,10 @@ func (v *ParticipationRegistryView) Raw() (ParticipationRegistry, error) {
 }
 
 func (v *ParticipationRegistryView) FillZeroes(length uint64) error {
+	if length == 0 {
+		// no bottom nodes: SubtreeFillToLength cannot build an empty subtree of depth 0
+		return v.SetBacking(v.Type().DefaultNode())
+	}
 	// 32 flags (uint8) per node (bytes32)
 	nodesLen := (length + 31) / 32
 	depth := tree.CoverDepth(v.BottomNodeLimit())
